@@ -636,6 +636,8 @@ pub fn subjects() -> Vec<Subject> {
     bytes_like_subject!("collapse_owned_u8", CollapseSequence<OwnedRegion<u8>>, u8, reserve: false);
     bytes_like_subject!("collapse_owned_f64", CollapseSequence<OwnedRegion<f64>>, f64, reserve: false);
     bytes_like_subject!("cip_owned_u8", Cip<OwnedRegion<u8>>, u8, reserve: true);
+    // pair indexing over a region of slices: every empty slice must still get a dense (start, start) range
+    bytes_like_subject!("cip_slice_str", Cip<SliceRegion<StringRegion>>, String, reserve: false);
     bytes_like_subject!("cip_owned_unit_list", Cip<OwnedRegion<()>, IList>, (), reserve: true);
     bytes_like_subject!("cip_owned_unit_opt", Cip<OwnedRegion<()>, IndexOptimized>, (), reserve: true);
     {
